@@ -372,7 +372,7 @@ func c11cases() []c11case {
 func TestC11(t *testing.T) {
 	rep := lib.NewReport("C11", "model_checking")
 	defer rep.Finish(t)
-	rep.Rule = "for every assignment of contents {absent,h1,h2(,h3)} to (split, path) over 1..3(4) splits uploaded one fake second apart (split IDs co- and counter-ordered with time) x 4 conflict modes: the real Diamond.Commit runs with the Gets of all split index files gated and the DFS releases them in every permutation; oracle = specification of the merge (latest upload wins; losers kept under their uploader; identical content never a conflict; forbid fails iff conflict; flags) + a 1-split diamond equals a plain upload; plus two splits with an overlapping path uploading CONCURRENTLY (blob and vmetadata calls gated, one entry per split index file through the verif hook, one fake second per call, all interleavings within the preemption bound) then a commit: recorded upload times lie between the file's blob write and the split's completion, and the later upload of the shared path wins; distinct = distinct (case, committed entry set)"
+	rep.Rule = "for every assignment of contents {absent,h1,h2(,h3)} to (split, path) over 1..3(4) splits uploaded one fake second apart (split IDs co- and counter-ordered with time) x 4 conflict modes: the real Diamond.Commit runs with the Gets of all split index files gated and the DFS releases them in every permutation; oracle = specification of the merge (latest upload wins; losers kept under their uploader; identical content never a conflict; forbid fails iff conflict; flags) + a 1-split diamond equals a plain upload; plus two splits with an overlapping path uploading CONCURRENTLY (blob and vmetadata calls gated, one entry per split index file through the verif hook, one fake second per call, all interleavings within the preemption bound) then a commit: recorded upload times lie between the file's blob write and the split's completion, and the later upload of the shared path wins; plus commits of 2..3 completed splits (1..2 files each, one index file per entry) with every listing page size 1..10: all files of all splits; distinct = distinct (case, committed entry set)"
 	cases := c11cases()
 	hashes := c11hash(nil)
 	parent := lib.RunCases(t, rep, "TestC11", len(cases), 0, 120*time.Second, func(i int) {
@@ -397,7 +397,79 @@ func TestC11(t *testing.T) {
 		rep.Set("cases", len(cases))
 		rep.Sample(map[string]interface{}{"case": cases[len(cases)/2].String()})
 		c11timing(t, rep)
+		c11pages(t, rep)
 	}
+}
+
+// c11pages: a commit lists the diamond's splits page by page; every page size from 1 to 10 (and splits with 0..2 index
+// files, whose keys share the listed prefix) must give the same bundle: all files of all completed splits.
+func c11pages(t *testing.T, rep *lib.Report) {
+	n := 0
+	for _, nsplits := range []int{2, 3} {
+		for _, filesPerSplit := range []int{1, 2} {
+			for page := 1; page <= 10; page++ {
+				nsplits, filesPerSplit, page := nsplits, filesPerSplit, page
+				lib.Bubble(t, func() {
+					w := NewWorld()
+					w.Blob.NoJournal = true
+					st := w.Stores()
+					if err := mkRepo(st, "r"); err != nil {
+						panic(err)
+					}
+					dd, err := core.CreateDiamond("r", st, core.DiamondLogger(nopLogger))
+					if err != nil {
+						panic(err)
+					}
+					want := map[string]bool{}
+					core.VerifIndexEntriesPerFile = 1 // one index file per entry: several keys per split under the listed prefix
+					for i := 0; i < nsplits; i++ {
+						time.Sleep(time.Second)
+						files := map[string][]byte{}
+						for f := 0; f < filesPerSplit; f++ {
+							name := fmt.Sprintf("s%d/f%d", i, f)
+							files[name] = []byte("content of " + name)
+							want[name] = true
+						}
+						if err := splitAdd(st, "r", dd.DiamondID, fmt.Sprintf("s%d", i), files); err != nil {
+							panic(err)
+						}
+					}
+					core.VerifIndexEntriesPerFile = 0
+					time.Sleep(time.Second)
+					diamond, err := core.GetDiamond("r", dd.DiamondID, st, core.DiamondLogger(nopLogger))
+					if err != nil {
+						panic(err)
+					}
+					d := core.NewDiamond("r", st, core.DiamondDescriptor(model.NewDiamondDescriptor(model.DiamondClone(diamond), model.DiamondMode(model.EnableConflicts))),
+						core.DiamondMessage("commit"), core.DiamondLogger(nopLogger))
+					d.BundleDescriptor.LeafSize = c11L
+					desc := fmt.Sprintf("%d splits x %d files, commit with page size %d", nsplits, filesPerSplit, page)
+					rp := map[string]interface{}{"splits": nsplits, "files_per_split": filesPerSplit, "page_size": page}
+					rep.Eval(1)
+					n++
+					if err := d.Commit(core.BatchSize(page)); err != nil {
+						rep.Violate("C11|pages|commit-fails", desc+": "+err.Error(), rp)
+						return
+					}
+					ents, err := bundleEntries(st, "r", d.BundleID)
+					if err != nil {
+						rep.Violate("C11|pages|bundle-unreadable", desc+": "+err.Error(), rp)
+						return
+					}
+					for name := range want {
+						if _, ok := ents[name]; !ok {
+							rep.Violate("C11|pages|file-of-a-completed-split-missing", fmt.Sprintf("%s: %q is missing from the bundle, which lists %d of %d files", desc, name, len(ents), len(want)), rp)
+							return
+						}
+					}
+					if len(ents) != len(want) {
+						rep.Violate("C11|pages|extra-entries", fmt.Sprintf("%s: bundle lists %d entries, %d files were uploaded", desc, len(ents), len(want)), rp)
+					}
+				})
+			}
+		}
+	}
+	rep.Set("commits_with_small_pages", n)
 }
 
 // c11timing: two splits of one diamond upload CONCURRENTLY, with an overlapping path; every blob / vmetadata call is a
